@@ -66,6 +66,7 @@ type sitesFile struct {
 	LockShims    int      `json:"lock_shims"`
 	OnceShims    int      `json:"once_shims"`
 	ChanShims    int      `json:"chan_shims"`
+	ClockShims   int      `json:"clock_shims"`
 	GoStmts      int      `json:"go_statements"`
 	GoStmtLocs   []string `json:"go_statement_locs"`
 	HotSites     int      `json:"hot_sites"`
@@ -315,6 +316,8 @@ func main() {
 				}
 				return true
 			})
+			clockUsed := false
+			timeName := "time"
 			skipCalls := map[*ast.CallExpr]bool{}
 			skipBlocks := map[*ast.BlockStmt]bool{}
 			ast.Inspect(f, func(n ast.Node) bool {
@@ -383,6 +386,19 @@ func main() {
 					if !ok {
 						return true
 					}
+					// time.Now() etc. -> the simulated clock
+					if id, ok := sel.X.(*ast.Ident); ok {
+						if pn, ok := info.Uses[id].(*types.PkgName); ok && pn.Imported().Path() == "time" {
+							switch sel.Sel.Name {
+							case "Now", "Since", "Until", "Sleep", "After":
+								add(offset(sel.Pos()), offset(sel.End()), "__simrt."+sel.Sel.Name)
+								sf.ClockShims++
+								clockUsed = true
+								timeName = id.Name
+							}
+							return true
+						}
+					}
 					recv := syncRecv(sel)
 					switch {
 					case (recv == "Mutex" || recv == "RWMutex") && (sel.Sel.Name == "Lock" || sel.Sel.Name == "RLock") && len(x.Args) == 0:
@@ -426,6 +442,10 @@ func main() {
 				last = e.end
 			}
 			buf.Write(src[last:])
+			if clockUsed {
+				// keep the import of "time" used even if every use was rewritten
+				buf.WriteString("\nvar _ = " + timeName + ".Now\n")
+			}
 			// A file that only got the import but uses nothing cannot happen:
 			// edits is non-empty, every edit references __simrt.
 			if err := os.WriteFile(full, buf.Bytes(), 0o644); err != nil {
@@ -462,6 +482,6 @@ func main() {
 	if err := os.WriteFile(*sitesOut, jb, 0o644); err != nil {
 		die("%v", err)
 	}
-	fmt.Fprintf(os.Stderr, "cvssinst: %d packages, %d files, %d yield sites (%d hot), %d map ranges, %d lock shims, %d once shims, %d channel shims, %d go statements\n",
-		len(mods), sf.Files, len(sf.Sites), sf.HotSites, sf.MapRanges, sf.LockShims, sf.OnceShims, sf.ChanShims, sf.GoStmts)
+	fmt.Fprintf(os.Stderr, "cvssinst: %d packages, %d files, %d yield sites (%d hot), %d map ranges, %d lock shims, %d once shims, %d channel shims, %d clock shims, %d go statements\n",
+		len(mods), sf.Files, len(sf.Sites), sf.HotSites, sf.MapRanges, sf.LockShims, sf.OnceShims, sf.ChanShims, sf.ClockShims, sf.GoStmts)
 }
